@@ -79,6 +79,13 @@ def stepLedger (toks : List String) : String :=
     match ofHex b, ofHex alt, ofHex trailing with
     | some b, some alt, some tr => txProp (lookupKey tbl) b alt tr
     | _, _, _ => "bad-op"
+  | ["txmut", b, _mode, _sig, _keys] =>   -- a change inside a Sig entry survives re-encoding: evaluated on the implementation
+    match ofHex b with
+    | none => "bad-op"
+    | some b =>
+      match txFromRawBytes (lookupKey tbl) H b with
+      | .ok t => if t.val.2.isEmpty then "bad-op" else "ok"
+      | .error _ => "bad-op"
   | "holdarr" :: _ => "ok"   -- held ToArray()/GetMessage() results re-checked after later encodings: evaluated on the implementation
   | "conc" :: _ => "ok"      -- concurrent decoding of the same items: evaluated on the implementation (the model is a pure function)
   | ["txbig", n, fill, nonce] =>
